@@ -306,8 +306,13 @@ pub fn act_account_close(sim: &mut Sim, ctx: &mut Ctx) -> Option<Tx> {
             let bals = active_balances(&a);
             let closable = bals.iter().all(|b| i80(b.asset_shares) < I80F48::ONE && i80(b.liability_shares) < I80F48::ONE);
             let has_remainder = bals.iter().any(|b| i80(b.asset_shares) > I80F48::ZERO || i80(b.liability_shares) > I80F48::ZERO);
-            if closable {
-                cands.push((ui, *gi, *ma, has_remainder));
+            // also tried (and expected to be refused): accounts that still owe something but
+            // hold no deposits any more (e.g. fully seized by liquidation), and any account at all
+            let debt_only = !bals.is_empty()
+                && bals.iter().all(|b| i80(b.asset_shares) < I80F48::ONE)
+                && bals.iter().any(|b| i80(b.liability_shares) >= I80F48::ONE);
+            if closable || debt_only {
+                cands.push((ui, *gi, *ma, has_remainder || debt_only));
             }
         }
     }
@@ -348,7 +353,12 @@ pub fn act_accrue(_sim: &Sim, ctx: &mut Ctx) -> Option<Tx> {
 pub fn act_collect(_sim: &Sim, ctx: &mut Ctx) -> Option<Tx> {
     let gi = ctx.rng.below(ctx.world.groups.len() as u64) as usize;
     let b = pick_bank(ctx, gi)?;
-    let ata = ctx.world.fee_ata(&b);
+    let mut ata = ctx.world.fee_ata(&b);
+    if !ctx.world.retired_fee_wallets.is_empty() && ctx.rng.chance(1, 2) {
+        // a stale client still pays the wallet the fee state named before its rotation
+        let w = *ctx.rng.pick(&ctx.world.retired_fee_wallets);
+        ata = ix::ata(&w, &b.keys.mint, &b.keys.token_program);
+    }
     Some(Tx::one("crank", ix::collect_bank_fees(&b.keys, ata)))
 }
 
